@@ -24,7 +24,7 @@ import numpy as np
 from .. import core, tlaval
 
 SEEDS = ('root', 'seed', 'dseed', 'aseed')
-FINDING_BY_NOTE = (('brace', 'D-X08-3'), ('semicolon', 'D-X08-2'), ('charname', 'D-X08-4'), ('emptyauto', 'D-X08-5'))
+FINDING_BY_NOTE = (('brace', 'D-X08-3'), ('charname', 'D-X08-4'), ('emptyauto', 'D-X08-5'))   # D-X08-1/-2 are fixed: they excuse nothing
 MAX_LISTED = 30
 
 
@@ -365,44 +365,87 @@ def _dt_ok(e, o):
         (o['w'] >= e['w'] if e['wmin'] else o['w'] in (0, 1) if (e['kind'] == 'S' and e['w'] == 0) else o['w'] == e['w'])
 
 
-def acc_why(e, o):
-    """The comparison Trace_YannyParts!AccWhy0 makes, for the spec -> code direction ('' = conforms)."""
+def acc_whys(e, o):
+    """Every part of the observation that differs from Accessors(text) (the comparison Trace_YannyParts!AccWhys makes):
+    a list of (accessor, table, member, description); [] = conforms."""
     if o['fail']:
-        return 'object could not be read: ' + o['fail']
+        return [('fail', '', '', 'object could not be read: ' + o['fail'])]
     if o['tables'] != list(e['tables']) or len(o['tabs']) != len(e['tabs']):
-        return 'tables() = %r, specified %r' % (o['tables'], list(e['tables']))
+        return [('tables', '', '', 'tables() = %r, specified %r' % (o['tables'], list(e['tables'])))]
+    out = []
     if o['pairs'] != list(e['pairs']):
-        return 'pairs() = %r, specified %r' % (o['pairs'], list(e['pairs']))
+        out.append(('pairs', '', '', 'pairs() = %r, specified %r' % (o['pairs'], list(e['pairs']))))
     if o['undef'] != e['undef']:
-        return 'type() of an undefined structure / member is not None'
+        out.append(('undef', '', '', 'type() of an undefined structure / member is not None'))
     for te, to in zip(e['tabs'], o['tabs']):
         if to['columns'] != list(te['columns']) or len(to['cols']) != len(te['cols']):
-            return 'columns(%s) = %r, specified %r' % (te['name'], to['columns'], list(te['columns']))
+            out.append(('columns', te['name'], '', 'columns(%s) = %r, specified %r' % (te['name'], to['columns'], list(te['columns']))))
+            continue
         if to['size'] != te['size']:
-            return 'size(%s) = %r, specified %r' % (te['name'], to['size'], te['size'])
+            out.append(('size', te['name'], '', 'size(%s) = %r, specified %r' % (te['name'], to['size'], te['size'])))
         for ce, co in zip(te['cols'], to['cols']):
             for fld, acc in (('type', 'type'), ('base', 'basetype'), ('isarray', 'isarray'), ('isenum', 'isenum'), ('alen', 'array_length')):
                 if co[fld] != ce[fld]:
-                    return '%s(%s, %s) = %r, specified %r' % (acc, te['name'], ce['name'], co[fld], ce[fld])
+                    out.append((acc, te['name'], ce['name'], '%s(%s, %s) = %r, specified %r' % (acc, te['name'], ce['name'], co[fld], ce[fld])))
             if not _clen_ok(ce['clen'], co['clen']):
-                return 'char_length(%s, %s) = %r, specified %r' % (te['name'], ce['name'], co['clen'], ce['clen'])
+                out.append(('char_length', te['name'], ce['name'],
+                            'char_length(%s, %s) = %r, specified %r' % (te['name'], ce['name'], co['clen'], ce['clen'])))
         if not any(ce['dt']['open'] for ce in te['cols']):
             for ce, co in zip(te['cols'], to['cols']):
                 if not _dt_ok(ce['dt'], co['dt']):
-                    return 'dtype(%s) field %s = %r, specified %r' % (te['name'], ce['name'], co['dt'], ce['dt'])
-    return ''
+                    out.append(('dtype', te['name'], ce['name'],
+                                'dtype(%s) field %s = %r, specified %r' % (te['name'], ce['name'], co['dt'], ce['dt'])))
+                    break
+    return out
 
 
-# which accessors a named deviation can explain (a lost or extended member list explains anything)
-EXPLAINS = {'charname': ('isarray(', 'array_length(', 'char_length(', 'dtype(', 'object could not be read'),
-            'emptyauto': ('dtype(', 'object could not be read')}
+def acc_why(e, o):
+    w = acc_whys(e, o)
+    return w[0][3] if w else ''
 
 
-def finding_of_notes(notes, why):
-    for key, fid in FINDING_BY_NOTE:
-        if notes.get(key) and (key not in EXPLAINS or why.startswith(EXPLAINS[key])):
-            return fid
-    return None
+# ---- which still-known deviation(s) reproduce what was observed -----------------------------------------------
+# A deviation is used only when its status in known_findings.json is "known" and only for the parts of the observation
+# it produces: D-X08-3 (brace in a typedef comment) loses the structure (tables() differs / the object cannot be read);
+# D-X08-4 makes isarray / array_length / char_length / dtype of a member of an enum type named *char* wrong; D-X08-5
+# makes dtype() of a table with an all-empty char NAME[n][] member raise.  The fixed D-X08-1 / D-X08-2 explain nothing.
+def _charname_member(ce):
+    return ce['base'] != 'char' and 'char' in ce['base']
+
+
+def _emptyauto_member(te, ce):
+    return ce['base'] == 'char' and ce['isarray'] and ce['type'].endswith('[]') and te['size'] > 0 and ce['clen'] == {'k': 'int', 'n': 0}
+
+
+def _explains(key, e, w):
+    acc, tname, member = w[0], w[1], w[2]
+    if acc == 'fail':
+        return True                      # the constructor builds every table's dtype
+    if key == 'brace':
+        return acc == 'tables'
+    tab = [t for t in e['tabs'] if t['name'] == tname]
+    if not tab:
+        return False
+    te = tab[0]
+    if key == 'charname':
+        if acc in ('isarray', 'array_length', 'char_length'):
+            return any(ce['name'] == member and _charname_member(ce) for ce in te['cols'])
+        return acc == 'dtype' and any(_charname_member(ce) for ce in te['cols'])
+    if key == 'emptyauto':
+        return acc == 'dtype' and any(_emptyauto_member(te, ce) for ce in te['cols'])
+    return False
+
+
+def findings_of(ctx, exp, whys):
+    """The smallest set of still-known deviations present in the text that accounts for every differing part."""
+    import itertools
+    known = {f.get('id') for f in ctx.findings if f.get('status') == 'known'}
+    cand = [(key, fid) for key, fid in FINDING_BY_NOTE if exp['notes'].get(key) and fid in known]
+    for size in range(1, len(cand) + 1):
+        for sub in itertools.combinations(cand, size):
+            if all(any(_explains(key, exp, w) for key, _ in sub) for w in whys):
+                return [fid for _, fid in sub]
+    return []
 
 
 # ---- convert ---------------------------------------------------------------------------------
@@ -667,12 +710,17 @@ def listed(ctx, fam, fid):
 
 
 def report(ctx, fam, what, case, finding=None):
-    if finding and any(f.get('id') == finding and f.get('status') == 'known' for f in ctx.findings):
+    """finding: the id of the deviation that reproduces the observation.  Only a deviation whose status in
+    known_findings.json is "known" excuses anything; the id of a FIXED one is shown as a regression label."""
+    status = {f.get('id'): f.get('status') for f in ctx.findings}
+    if finding and status.get(finding) == 'known':
         ctx.violation(dict(case, what=what, family=fam), finding=finding)
         return
     if listed(ctx, fam, finding):
-        tag = ('[%s, not yet in known_findings.json] ' % finding) if finding else ''
-        ctx.violation(dict(case, what=tag + what, family=fam, explained_by=finding or ''), finding=finding)
+        tag = ''
+        if finding:
+            tag = ('[what the fixed %s did] ' if status.get(finding) == 'fixed' else '[%s, not in known_findings.json] ') % finding
+        ctx.violation(dict(case, what=tag + what, family=fam, explained_by=finding or ''))
 
 
 def check_state(ctx, st, n):
@@ -709,21 +757,24 @@ def check_state(ctx, st, n):
         obs = run_dts(c, n)
         ctx.nontriv(('dts', json.dumps([c['cols'], c['enums'], c['sname']], sort_keys=True)))
         if not dts_conforms(exp, obs):
-            fid = 'D-X08-1' if (not exp['err'] and dts_conforms(exp, obs, 'devstruct')) else None
+            again = ' (what the fixed D-X08-1 did: unicode widths in bytes)' if (not exp['err'] and dts_conforms(exp, obs, 'devstruct')) else ''
             report(ctx, fam, 'dtype_to_struct(%s dtype of %s, structname=%r, enums=%s): %s; specified %s' % (
                 obs['how'], [(f['name'], f['kind'] + (str(f['w']) if f['w'] else ''), f['alen']) for f in c['cols']], c['sname'],
                 [(e['col'], e['ename']) for e in c['enums']],
                 ('raised ' + obs['exc']) if obs['err'] else (obs['exc'] or repr(obs['struct'])),
-                'an exception' if exp['err'] else repr(exp['struct'])), {'call': c, 'rot': n, 'expected': exp, 'observed': obs}, fid)
+                ('an exception' if exp['err'] else repr(exp['struct'])) + again), {'call': c, 'rot': n, 'expected': exp, 'observed': obs})
         return 'judged', obs
     if fam == 'acc':
         needs_raw = any(ce['dt']['open'] and te['size'] == 0 for te in exp['tabs'] for ce in te['cols'])
         obs = observe_acc(ctx, c['text'], n, raw=True if needs_raw else None)
         ctx.nontriv(('acc', c['text']))
-        why = acc_why(exp, obs)
-        if why:
-            report(ctx, fam, '%s (read by %s, raw=%s); text %r' % (why, obs['way'], obs['raw'], c['text'][:600]),
-                   {'call': c, 'rot': n, 'expected': exp, 'observed': obs}, finding_of_notes(exp['notes'], why))
+        whys = acc_whys(exp, obs)
+        if whys:
+            fids = findings_of(ctx, exp, whys)
+            report(ctx, fam, '%s%s (read by %s, raw=%s); text %r' % (
+                whys[0][3], (' [together with %s]' % ', '.join(fids[1:])) if len(fids) > 1 else '', obs['way'], obs['raw'], c['text'][:600]),
+                {'call': c, 'rot': n, 'expected': exp, 'observed': obs, 'all_differences': [w[3] for w in whys[:12]]},
+                fids[0] if fids else None)
         return 'judged', obs
     if fam == 'conv':
         obs = run_conv(ctx, c['base'], c['isarray'], c['value'])
